@@ -114,11 +114,10 @@ Proof. vm_compute. repeat split. Qed.
    of the theorem above that additionally stay inside [op_okb3] (model/Wf.v):
    no charge or autocharge type defines an autocharge of its own and effect
    lists are duplicate-free (flat worlds), a charge is put into a directly held
-   item, a new solar system gets an unused id, and at a source switch the state
-   between unloading and reloading is as it should be (every loaded directly
-   held item is loaded from its fit's current source; the items about to be
-   reloaded are listed once and unloaded -- for adding a fit to a solar system
-   the corresponding facts are proved, not assumed). The extracted driver evaluates op_okb3
+   item, and a new solar system gets an unused id (what adding a fit to a solar
+   system and switching a source need -- the item lists about to be loaded are
+   duplicate-free and unloaded -- is proved from the invariants, not assumed).
+   The extracted driver evaluates op_okb3
    on every generated call (counter OpOutsideFlatHyp). No bound on the history.
    Outside flat worlds the statement is false of the pinned code before
    ba32e94 (finding F16, scenario nested_autocharge). ---- *)
